@@ -287,6 +287,20 @@ def shard_attr_fragments(ctx, shard, nshards, maxlen):
     ctx.run_cases('attrs-x', ({'src': s} for s in core.sharded(core.all_strings(ATTR_ALPHA, maxlen), shard, nshards)))
 
 
+# open tags of the "special" elements (script/style: the scanner inspects their `type` attribute before deciding how to read the body):
+# every fragment over the pieces of such a tag, alone, closed, and followed by a body and the closing tag
+SPECIAL_PIECES = [' ', 'type', '=', '"', "'", 'text/javascript', 'x', '>', '/']
+
+
+def shard_special_tags(ctx, shard, nshards, maxlen):
+    def gen():
+        for frag in core.sharded(core.all_strings(SPECIAL_PIECES, maxlen), shard, nshards):
+            for name in ('script', 'style'):
+                yield {'src': '<%s%s' % (name, frag), 'xml': False}
+                yield {'src': '<a><%s %s><b></b></%s></a>' % (name, frag, name), 'xml': False}
+    ctx.run_cases('html-x', gen())
+
+
 CHECKS = {'html': check_html, 'css': check_css, 'html-x': check_html_x, 'css-x': check_css_x, 'attrs-x': check_attrs_x}
 
 HTML_SEEDS = ['<a><b></b></a>', '<div class="a" id=b><br><img src="x>y"/></div>', '<!-- <a> --><p>t</p>', '<![CDATA[<a>]]><b/>',
@@ -376,6 +390,9 @@ def run(ctx):
     AL = ctx.pick(5, 6)
     ctx.run_parallel('shard_attr_fragments', extra=(AL,))
     ctx.exhaustive('every attribute fragment of length ≤ %d over %r (attribute parser ranges)' % (AL, ''.join(ATTR_ALPHA)))
+    SL = ctx.pick(4, 5)
+    ctx.run_parallel('shard_special_tags', extra=(SL,))
+    ctx.exhaustive('every sequence of ≤ %d pieces over %r as the attribute part of a <script>/<style> open tag (unterminated, and inside a document with a body and closing tag)' % (SL, SPECIAL_PIECES))
     H = ctx.pick(4, 5)
     ctx.run_parallel('shard_exhaustive', extra=('html', H))
     ctx.exhaustive('every string of length ≤ %d over the HTML alphabet (%d symbols) × every position −1..len+1' % (H, len(A.HTML_DOC)))
